@@ -640,7 +640,7 @@ Lemma step_sim : forall o s r, sim s r -> inv r ->
   sim (fst (step o s)) (fst (ref_step o r)) /\ inv (fst (ref_step o r)) /\
   log_of (snd (step o s)) = snd (ref_step o r).
 Proof.
-  intros o s r S I. destruct o as [c u|c [h|]|o|n|c data ts|f| |o rx tx]; cbn [step ref_step].
+  intros o s r S I. destruct o as [c u|c [h|]|o|n|c data ts|f| |o rx tx|o| |]; cbn [step ref_step].
   - (* OSub *) cbn. split; [|split]; auto.
     + constructor; cbn; [|sim_rest S..].
       apply subscribe_refines. apply (sim_map _ _ S).
@@ -738,6 +738,20 @@ Proof.
                  apply nobj_eqb_spec in Er. subst; reflexivity.
               ** apply ref_handlers_new; auto.
         -- apply Hgrow. apply (inv_nodes _ I); auto.
+  - (* OReassoc *)
+    rewrite (registered_ref s r o S). destruct (ref_registered o r) eqn:Er; [|cbn; auto].
+    cbn. split; [|split]; auto.
+    + constructor; cbn; [|sim_rest S..].
+      unfold associate. rewrite node_handlers_ref, (sim_chans _ _ S). apply associate_refines.
+      apply (sim_map _ _ S).
+    + constructor; cbn.
+      * apply r_sub_all_nodup. apply (inv_nodup _ I).
+      * intros c o' k H. apply r_sub_all_in in H. destruct H as [H|H]; [apply (inv_nodes _ I); auto|].
+        destruct (ref_handlers_own _ _ _ _ H) as [k' Hk]. inversion Hk; subst o' k'. split; auto.
+        unfold ref_registered in Er. destruct (r_nodes r (o_nid o)) as [o'|]; [|discriminate].
+        apply nobj_eqb_spec in Er. subst; reflexivity.
+  - (* OConnect *) cbn. auto.
+  - (* ODisconnect *) cbn. auto.
 Qed.
 
 Lemma run_sim : forall ops s r, sim s r -> inv r ->
@@ -798,7 +812,7 @@ Proof.
   { intros c' data ts H. unfold ref_deliver in H. cbn in H. apply in_map_iff in H.
     destruct H as [h [Heq Hh]]. inversion Heq; subst.
     apply (inv_nodes _ I) in Hh. destruct Hh as [A _]. rewrite <- (sim_nodes _ _ S) in A. contradiction. }
-  destruct o as [c0 u|c0 [h|]|o|n|c0 data ts|f| |o rx tx]; cbn [ref_step] in Hin.
+  destruct o as [c0 u|c0 [h|]|o|n|c0 data ts|f| |o rx tx|o| |]; cbn [ref_step] in Hin.
   - destruct Hin.
   - destruct (r_unsub1 c0 h (r_map r)); destruct Hin.
   - destruct Hin.
@@ -808,6 +822,9 @@ Proof.
   - destruct (f_err f || f_remote f); [destruct Hin | eapply Hdel; eauto].
   - destruct Hin.
   - destruct (o_local o); destruct Hin.
+  - destruct (ref_registered o r); destruct Hin.
+  - destruct Hin.
+  - destruct Hin.
 Qed.
 
 Lemma step_keeps_unregistered : forall o s old,
@@ -815,7 +832,7 @@ Lemma step_keeps_unregistered : forall o s old,
   lookup_node (o_nid old) (nodes (fst (step o s))) <> Some old.
 Proof.
   intros o s old Hno Hne.
-  destruct o as [c0 u|c0 h|o|n|c0 data ts|f| |o rx tx]; cbn [step].
+  destruct o as [c0 u|c0 h|o|n|c0 data ts|f| |o rx tx|o| |]; cbn [step].
   - cbn. auto.
   - destruct (unsubscribe c0 h (subs s)); cbn; auto.
   - unfold setitem.
@@ -832,6 +849,9 @@ Proof.
   - unfold listener. destruct (f_err f || f_remote f); cbn; auto.
   - cbn. auto.
   - unfold add_sdo. destruct (o_local o); cbn; auto.
+  - destruct (registered o s); cbn; auto.
+  - cbn. auto.
+  - cbn. auto.
 Qed.
 
 Lemma silent_general : forall ops s r old, sim s r -> inv r ->
@@ -945,4 +965,51 @@ Proof.
     match goal with |- In _ (if ?b then _ else _) => destruct b eqn:E end.
     + apply hmem_spec in E. exact E.
     + rewrite in_app_iff. right; left; reflexivity.
+Qed.
+
+(* ---- periodic task: the message after any number of update() calls ---- *)
+Definition frame_ok (c : Z) (remote : bool) (f : frame) : Prop :=
+  f_id f = c /\ f_remote f = remote /\ f_ext f = (c >? 2047) /\ f_err f = false.
+
+Definition call_ok (c : Z) (remote : bool) (d : list Z) (b : bus_call) : Prop :=
+  match b with
+  | BModify f _ => frame_ok c remote f /\ f_data f = d
+  | BStop => True
+  | BSendPeriodic f _ _ => frame_ok c remote f /\ f_data f = d
+  end.
+
+Lemma periodic_updates_ok : forall modify period c remote ds st,
+  frame_ok c remote (fst st) ->
+  Forall2 (fun d sc => frame_ok c remote (fst (fst sc)) /\ f_data (fst (fst sc)) = d /\
+                       Forall (call_ok c remote d) (snd sc))
+          ds (periodic_updates modify period st ds).
+Proof.
+  induction ds as [|d r IH]; intros [m dlc] Hok; cbn [periodic_updates].
+  - constructor.
+  - assert (Hm : frame_ok c remote (set_frame_data m d)) by (destruct Hok as [A [B [C D]]]; repeat split; auto).
+    unfold periodic_update. cbn [fst] in Hok.
+    destruct modify; [|destruct (list_Z_eqb d (f_data m))]; constructor;
+      try (apply IH; exact Hm); cbn; repeat split; auto; try apply Hm;
+      repeat constructor; try apply Hm.
+Qed.
+
+Lemma periodic_update_format : forall modify period c data remote ds,
+  Forall2 (fun d sc => frame_ok c remote (fst (fst sc)) /\ f_data (fst (fst sc)) = d /\
+                       Forall (call_ok c remote d) (snd sc))
+          ds (periodic_updates modify period (periodic_start c data remote) ds).
+Proof.
+  intros. apply periodic_updates_ok. unfold periodic_start, mk_frame, frame_ok; cbn. auto.
+Qed.
+
+(* python-can does not recompute dlc when .data is assigned: after an update with a payload of a
+   different length the message's dlc is still the length given at construction *)
+Lemma periodic_update_dlc_stale : forall modify period c data ds,
+  Forall (fun sc => snd (fst sc) = Z.of_nat (length data))
+         (periodic_updates modify period (periodic_start c data false) ds).
+Proof.
+  intros modify period c data ds. unfold periodic_start. cbn [mk_frame f_data].
+  generalize (mk_frame c data false). generalize (Z.of_nat (length data)).
+  induction ds as [|d r IH]; intros dlc m; cbn [periodic_updates]; [constructor|].
+  unfold periodic_update.
+  destruct modify; [|destruct (list_Z_eqb d (f_data m))]; constructor; cbn; auto.
 Qed.
